@@ -46,6 +46,7 @@ def O(t):
 Q, Z, N, B, G, U, LIT, ID, FSTR, KSET, SEG, BUF, STR, SHP, TAG, OBJ, FNAME, ARR = "Q", "Z", "N", "B", "G", "U", "LIT", "Id", "F", "K", "Seg", "Buf", "Str", "Shp", "Tag", "Obj", "Fname", "Arr"
 COO = "Coo"
 FN = "Fn"
+PTH = "Pth"
 
 
 def coq_type(t) -> str:
@@ -83,6 +84,8 @@ def coq_type(t) -> str:
         return "axis"
     if t == COO:
         return "coo"
+    if t == PTH:
+        return "(list Z)"
     if isinstance(t, tuple) and t[0] == "S":
         return f"(list {coq_type(t[1])})"
     if isinstance(t, tuple) and t[0] == "D":
@@ -102,7 +105,7 @@ def coq_type(t) -> str:
 def parse_type(s: str):
     """'Q', 'O(Q)', 'L(L(Q))', 'T(Q,Q)' -> type"""
     s = s.strip()
-    for atom in (Q, Z, N, B, G, U, ID, FSTR, KSET, SEG, BUF, SHP, TAG, OBJ, FNAME, ARR, COO, FN):
+    for atom in (Q, Z, N, B, G, U, ID, FSTR, KSET, SEG, BUF, SHP, TAG, OBJ, FNAME, ARR, COO, FN, PTH):
         if s == atom:
             return atom
     if s.startswith("R{") and s.endswith("}"):  # record: R{tag:Tag;score:Q}
@@ -1761,6 +1764,81 @@ def group_handler(fn, e, env, hoist, pure):
     return None
 
 
+def slice_path_field(node: ast.FunctionDef, tree) -> ast.FunctionDef:
+    """The `path` field of the object an adapter method returns: the statements from the first assignment of `path` up to
+    the final `return Cls(…, path=path, …)`, with `self.audio_dir` and `obj.path` as the parameters audio_dir / obj_path.
+    Fail-closed: the method must end in a return of a constructor call that passes the local `path` as keyword `path`,
+    and nothing before the first assignment may bind `path`."""
+    body = list(node.body)
+    if not body or not isinstance(body[-1], ast.Return) or not isinstance(body[-1].value, ast.Call):
+        raise Unsupported("method does not end in `return Cls(...)`")
+    ret = body[-1]
+    kw = [k for k in ret.value.keywords if k.arg == "path"]
+    if len(kw) != 1 or not (isinstance(kw[0].value, ast.Name) and kw[0].value.id == "path") or any(k.arg is None for k in ret.value.keywords):
+        raise Unsupported("the returned object does not take path=path")
+    first = None
+    for i, st in enumerate(body[:-1]):
+        if isinstance(st, ast.Assign) and len(st.targets) == 1 and isinstance(st.targets[0], ast.Name) and st.targets[0].id == "path":
+            first = i
+            break
+        if any(isinstance(z, ast.Name) and z.id == "path" for z in ast.walk(st)):
+            raise Unsupported("`path` used before its first plain assignment")
+    if first is None:
+        raise Unsupported("no assignment of `path`")
+
+    class _V(ast.NodeTransformer):
+        def visit_Attribute(self, a):
+            if isinstance(a.value, ast.Name) and a.value.id == "self" and a.attr == "audio_dir":
+                return ast.Name(id="audio_dir", ctx=ast.Load())
+            if isinstance(a.value, ast.Name) and a.value.id == "obj" and a.attr == "path":
+                return ast.Name(id="obj_path", ctx=ast.Load())
+            self.generic_visit(a)
+            return a
+
+    sl = [_V().visit(st) for st in body[first:-1]]
+    for st in sl:
+        for z in ast.walk(st):
+            if isinstance(z, ast.Name) and z.id in ("self", "obj"):
+                raise Unsupported("the path computation reads something else than self.audio_dir and obj.path")
+            if isinstance(z, ast.Name) and isinstance(z.ctx, ast.Store) and z.id != "path":
+                raise Unsupported(f"the path computation assigns {z.id}")
+    node.args = ast.arguments(posonlyargs=[], args=[], vararg=None, kwonlyargs=[], kw_defaults=[], kwarg=None, defaults=[])
+    node.body = sl + [ast.Return(value=ast.Name(id="path", ctx=ast.Load()))]
+    node.decorator_list = []
+    return ast.fix_missing_locations(node)
+
+
+def path_handler(fn, e, env, hoist, pure):
+    """pathlib on lists of components (Aoef/Paths.v): Path(p) is p; p.relative_to(d) strips the prefix or raises ValueError;
+    d / p joins (an absolute right operand replaces the left one)"""
+    if isinstance(e, ast.Call) and isinstance(e.func, ast.Name) and e.func.id in ("Path", "PurePath") and len(e.args) == 1 and not e.keywords:
+        t, ty = fn.expr(e.args[0], env, hoist, pure)
+        if ty == PTH:
+            return t, PTH
+        raise Unsupported("Path() of something else than a path")
+    if isinstance(e, ast.Call) and isinstance(e.func, ast.Attribute) and e.func.attr == "relative_to" and len(e.args) == 1 and not e.keywords:
+        t, ty = fn.expr(e.func.value, env, hoist, pure)
+        d, td = fn.expr(e.args[0], env, hoist, pure)
+        if ty == PTH and td == PTH:
+            if pure:
+                raise Unsupported("relative_to in a position that cannot fail")
+            name = fn.gensym("rel")
+            hoist.append((name, f"py_relative_to {t} {d}", PTH))
+            return name, PTH
+        raise Unsupported("relative_to on something else than paths")
+    if isinstance(e, ast.BinOp) and isinstance(e.op, ast.Div):
+        h2 = []
+        try:
+            l, tl = fn.expr(e.left, env, h2, pure)
+            r, tr = fn.expr(e.right, env, h2, pure)
+        except Unsupported:
+            return None
+        if tl == PTH and tr == PTH:
+            hoist.extend(h2)
+            return f"(py_path_join {l} {r})", PTH
+    return None
+
+
 def mat_handler(fn, e, env, hoist, pure):
     """cost_matrix[i, j] on the affinity matrix (a numpy array indexed by a pair of ints)"""
     if isinstance(e, ast.Subscript) and isinstance(e.value, ast.Name) and e.value.id in env and env[e.value.id][1] == ("M",) and isinstance(e.slice, ast.Tuple) and len(e.slice.elts) == 2:
@@ -2095,6 +2173,11 @@ def generate(src_root: Path) -> tuple[str, dict]:
           "calls": {"_compute_similarity_matrix": {"coq": "compute_similarity_matrix_py", "args": ["L(Z)", "Fn"], "argnames": ["sound_events", "comparison_fn"], "ret": "Coo", "monadic": True},
                     "connected_components": {"coq": "connected_components", "args": ["Coo"], "ret": "T(N,L(N))"}},
           "custom": [group_handler], "rewrite": rewrite_defaultdict_of_sequences, "ret": "L(L(Z))"})
+
+    # ---- C18: the path field written by RecordingAdapter.assemble_aoef and read back by assemble_soundevent
+    for nm, meth in (("recording_save_path", "assemble_aoef"), ("recording_load_path", "assemble_soundevent")):
+        unit(nm, "io/aoef/recording.py", f"RecordingAdapter.{meth}",
+             {"extra_params": {"audio_dir": "O(Pth)", "obj_path": "Pth"}, "custom": [path_handler], "rewrite": slice_path_field, "ret": "Pth"})
 
     # ---- C05 (and the bounds every geometry property goes through): geometry_to_shapely and compute_bounds
     rel = "geometry/conversion.py"
